@@ -1628,7 +1628,11 @@ theorem checkSetValue_error {var : Var} {d : Doc} {e : BErr} (h : checkSetValue 
     | exact numOfText_error (map_error h)
     | exact dateOfText_error (map_error h)
     | exact listAsScalar_error h
-    | (split at h <;> first | (cases h; done) | (cases h; decide))
+    | (split at h <;> first
+        | (cases h; done)
+        | (cases h; decide)
+        | (rename_i he; cases h; exact numOfText_error he)
+        | (split at h <;> first | (cases h; done) | (cases h; decide)))
 
 theorem valueWrite_error {var : Var} {size idx : Nat} {kv : DKey × Doc} {e : BErr}
     (h : valueWrite var size idx kv = .error e) : e ≠ .other := by
